@@ -12,6 +12,7 @@ import (
 
 	"github.com/oklog/ulid/v2"
 	"go.opentelemetry.io/otel"
+	"google.golang.org/protobuf/proto"
 	"google.golang.org/protobuf/types/known/structpb"
 	"google.golang.org/protobuf/types/known/timestamppb"
 
@@ -465,7 +466,11 @@ func sanitizeTuplesWriteDelete(
 		if record != nil {
 			if opts.OnDuplicateInsert == storage.OnDuplicateInsertIgnore {
 				// need to validate against condition and context
-				if record.ConditionName == tk.GetCondition().GetName() && record.ConditionContext.String() == tk.GetCondition().GetContext().String() {
+				// An absent context and an empty context are the same condition: compare the normalised forms.
+				if proto.Equal(
+					tupleUtils.NewRelationshipCondition(record.ConditionName, record.ConditionContext),
+					tupleUtils.NewRelationshipCondition(tk.GetCondition().GetName(), tk.GetCondition().GetContext()),
+				) {
 					duplicateWrites = append(duplicateWrites, i)
 					continue
 				}
